@@ -383,3 +383,26 @@ M('C06', 'unreached-zero', 'proximity.py', "                if line_proximity[i]
 M('C06', 'direction-north-is-zero', 'proximity.py', "    d = np.arctan2(-y, x) * 57.29578", "    d = np.arctan2(-y, x) * 57.29577951308232", 'X7')
 M('C06', 'direction-y-sign', 'proximity.py', "    d = np.arctan2(-y, x) * 57.29578", "    d = np.arctan2(y, x) * 57.29578", 'X7')
 T('C06', 'update-pow2', 'proximity.py', "            and max_distance * max_distance >= near_distance_square\n", "            and max_distance ** 2 >= near_distance_square\n")
+
+# ------------------------------------------------------------------------------------------------ C05
+M('C05', 'pos-corner-sign', 'viewshed.py', "        # first quadrant\n        if event_type == ENTERING_EVENT:\n            # if it is ENTERING_EVENT\n            y = event_row - 0.5\n            x = event_col + 0.5", "        # first quadrant\n        if event_type == ENTERING_EVENT:\n            # if it is ENTERING_EVENT\n            y = event_row - 0.5\n            x = event_col - 0.5")
+M('C05', 'rowcol-corner-sign', 'viewshed.py', "        # second quadrant\n        if event_type == ENTERING_EVENT:\n            # if it is ENTERING_EVENT\n            y = event_row + 1\n            x = event_col + 1", "        # second quadrant\n        if event_type == ENTERING_EVENT:\n            # if it is ENTERING_EVENT\n            y = event_row + 1\n            x = event_col - 1", 'T1')
+M('C05', 'enter-exit-swapped-axis-sector', 'viewshed.py', "        # between the third and fourth quadrant\n        if event_type == ENTERING_EVENT:\n            # if it is ENTERING_EVENT\n            y = event_row - 0.5\n            x = event_col - 0.5\n        else:\n            # if it is EXITING_EVENT\n            y = event_row - 0.5\n            x = event_col + 0.5",
+  "        # between the third and fourth quadrant\n        if event_type == ENTERING_EVENT:\n            # if it is ENTERING_EVENT\n            y = event_row - 0.5\n            x = event_col + 0.5\n        else:\n            # if it is EXITING_EVENT\n            y = event_row - 0.5\n            x = event_col - 0.5")
+M('C05', 'angle-quadrant-sign', 'viewshed.py', "        # 2nd quadrant\n        return PI - ang", "        # 2nd quadrant\n        return PI + ang", 'T3')
+M('C05', 'angle-axis-case', 'viewshed.py', "        # between 3rd and 4th quadrant\n        return PI * 3.0 / 2.0", "        # between 3rd and 4th quadrant\n        return PI / 2.0", 'T3')
+M('C05', 'ae-elev-index', 'viewshed.py', "AE_ELEV_1 = 2", "AE_ELEV_1 = 3", 'T4')
+M('C05', 'event-width-6', 'viewshed.py', "    event_list = np.zeros((num_events, 7), dtype=np.float64)", "    event_list = np.zeros((num_events, 6), dtype=np.float64)", 'T4')
+M('C05', 'split-at-4', 'viewshed.py', "event_aes = np.array(event_list[:, 3:], dtype=np.float64)", "event_aes = np.array(event_list[:, 4:], dtype=np.float64)", 'T4')
+M('C05', 'invisible-zero', 'viewshed.py', "INVISIBLE = -1", "INVISIBLE = 0", 'T5')
+M('C05', 'vertical-angle-above', 'viewshed.py', "    return atan(abs(diff_elev) / sqrt(distance_to_viewpoint)) * 180 / PI + 90", "    return atan(abs(diff_elev) / distance_to_viewpoint) * 180 / PI + 90", 'T5')
+M('C05', 'vertical-angle-level', 'viewshed.py', "    if diff_elev == 0.0:\n        return 90", "    if diff_elev == 0.0:\n        return 0", 'T5')
+M('C05', 'grad-res-swapped', 'viewshed.py', "    dx = (col - viewpoint_col) * ew_res\n    dy = (row - viewpoint_row) * ns_res\n    distance_to_viewpoint = (dx * dx) + (dy * dy)\n\n    # PI / 2 above, - PI / 2 below\n    if distance_to_viewpoint == 0:\n        if diff_elev > 0:\n            gradient = PI / 2\n        elif diff_elev < 0:\n            gradient = - PI / 2\n        else:\n            gradient = 0\n    else:\n        gradient = atan(diff_elev / sqrt(distance_to_viewpoint))\n    return gradient",
+  "    dx = (col - viewpoint_col) * ns_res\n    dy = (row - viewpoint_row) * ew_res\n    distance_to_viewpoint = (dx * dx) + (dy * dy)\n\n    # PI / 2 above, - PI / 2 below\n    if distance_to_viewpoint == 0:\n        if diff_elev > 0:\n            gradient = PI / 2\n        elif diff_elev < 0:\n            gradient = - PI / 2\n        else:\n            gradient = 0\n    else:\n        gradient = atan(diff_elev / sqrt(distance_to_viewpoint))\n    return gradient", 'T6')
+M('C05', 'res-by-width', 'viewshed.py', "    ns_res = (y_range[1] - y_range[0]) / (height - 1)", "    ns_res = (y_range[1] - y_range[0]) / (width - 1)", 'T6')
+M('C05', 'lexsort-keys-swapped', 'viewshed.py', "np.lexsort((event_list[:, E_TYPE_ID],\n                                        event_list[:, E_ANG_ID]))", "np.lexsort((event_list[:, E_ANG_ID],\n                                        event_list[:, E_TYPE_ID]))", 'T7')
+M('C05', 'event-type-order', 'viewshed.py', "ENTERING_EVENT = 1\nEXITING_EVENT = -1", "ENTERING_EVENT = -1\nEXITING_EVENT = 1")
+M('C05', 'observer-elev-raw-dtype', 'viewshed.py', "    viewpoint_elev = float(raster.values[y_view, x_view]) + observer_elev", "    viewpoint_elev = raster.values[y_view, x_view] + observer_elev", 'T10')
+M('C05', 'visibility-test-strict', 'viewshed.py', "            if max <= status_node[TN_GRAD_1]:", "            if max < status_node[TN_GRAD_1]:", 'T5')
+M('C05', 'angle-args-swapped', 'viewshed.py', "            e[E_ANG_ID] = _calculate_angle(ax, ay, vp_col, vp_row)\n            event_list[count_event] = e\n            count_event += 1\n\n            e[E_TYPE_ID] = CENTER_EVENT", "            e[E_ANG_ID] = _calculate_angle(ay, ax, vp_row, vp_col)\n            event_list[count_event] = e\n            count_event += 1\n\n            e[E_TYPE_ID] = CENTER_EVENT", 'T3')
+T('C05', 'observer-elev-float64', 'viewshed.py', "    viewpoint_elev = float(raster.values[y_view, x_view]) + observer_elev", "    viewpoint_elev = np.float64(raster.values[y_view, x_view]) + observer_elev")
